@@ -240,6 +240,71 @@ def two_writers(v0: int, order: int, txn1: bool, txn2: bool) -> bool:
             w.close()
 
 
+def two_writers_nested(v0: int, k: int, txn1: bool, txn2: bool, phase: bool, with_task: bool) -> bool:
+    """
+    pre: 0 <= v0 <= 1000 and 1 <= k <= 14
+    post: _
+    """
+    # Statement-level interleaving: both writers have read version v0; writer B's complete save
+    # runs just before writer A's k-th SQL statement (every k; positions inside A's open write
+    # transaction slip to the next statement outside one, as SQLite would make B wait).  Whatever
+    # the position: never two successful saves on one version, and what is durable is the winner's.
+    from harness.s2util import nest_at
+
+    with hx.Path("two_writers_nested") as P:
+        tx = [hx.decide(txn1), hx.decide(txn2)]
+        ph = hx.decide(phase)
+        nt = 1 if hx.decide(with_task) else 0  # a task row's own version check must not be what saves the stage row
+        w = world2.SWorld(name="nested")
+        try:
+            wf, st = seed_stage(w, ntasks=nt, status=WorkflowStatus.RUNNING)
+            set_cells(w, "stage_executions", st.id, version=v0)
+            stores = [w.store, second_store(w)]
+            local = [stores[0].retrieve_stage(st.id), stores[1].retrieve_stage(st.id)]
+            ok: list = [None, None]
+
+            def write(i: int) -> None:
+                s = local[i]
+                s.context["w%d" % i] = i + 10
+                try:
+                    if tx[i]:
+                        with stores[i].transaction(w.queue) as t:
+                            t.store_stage(s, expected_phase="RUNNING") if ph else t.store_stage(s)
+                    else:
+                        stores[i].store_stage(s, expected_phase="RUNNING") if ph else stores[i].store_stage(s)
+                    ok[i] = True
+                except ConcurrencyError:
+                    ok[i] = False
+
+            stt = nest_at(w.conn(), k, lambda: write(1), max_k=14)
+            write(0)
+            w.conn().pre_statement = None
+            if not stt["done"]:
+                write(1)
+            for c in (w.conn(), stores[1]._get_connection()):
+                c.commit()  # whatever a rejected save left pending must not become durable with the caller's next commit
+            row = row_of(w, "stage_executions", st.id)
+            from vf import symdb
+
+            ctx = row["context"]
+            ctx = ctx.obj if isinstance(ctx, symdb.JText) else __import__("json").loads(ctx)
+            with hx.native():
+                P.reached((tuple(tx), ph, nt, stt["at"], tuple(ok)))
+                info = {"transactional": tx, "expected_phase": ph, "tasks": nt, "B_ran_before_A_statement": stt["at"], "succeeded": ok, "context_keys": sorted(k_ for k_ in ctx if k_.startswith("w"))}
+            if ok[0] and ok[1]:
+                return P.fail("C07/two_writers_nested/lost_update_both_saves_on_one_version_succeeded", info)
+            if not (ok[0] or ok[1]):
+                return P.fail("C07/two_writers_nested/both_rejected", info)
+            for i in (0, 1):
+                if bool(ok[i]) != (("w%d" % i) in ctx):
+                    return P.fail("C07/two_writers_nested/%s" % ("committed_change_lost" if ok[i] else "rejected_change_visible"), info)
+            if row["version"] != v0 + 1:
+                return P.fail("C07/two_writers_nested/version_not_incremented_exactly_once", info)
+            return True
+        finally:
+            w.close()
+
+
 def retry_reloads(v0: int, bump: int) -> bool:
     """
     pre: 0 <= v0 <= 1000 and 1 <= bump <= 3
@@ -302,6 +367,7 @@ PLAN = [
     ("txn_store_stage_cas", "quick", 280),
     ("upsert_task_cas", "quick", 280),
     ("two_writers", "quick", 280),
+    ("two_writers_nested", "quick", 280),
     ("retry_reloads", "quick", 120),
     ("store_stage_cas_allphases", "thorough", 1500),
 ]
@@ -311,7 +377,7 @@ META = {
                   "src/stabilize/persistence/sqlite/store/store.py:SqliteWorkflowStore.transaction", "src/stabilize/persistence/sqlite/helpers.py:upsert_task/insert_stage",
                   "src/stabilize/handlers/base.py:retry_on_concurrency_error"],
     "bounds": ["one stage (+ one bystander stage), 1-2 tasks; durable and caller versions symbolic in [0,1000]; durable status all 12, expected phase {none, 3 statuses} (all 13 in the thorough tier); new status one of {RUNNING, SUCCEEDED, NOT_STARTED}",
-               "two writers: the four statement interleavings the SQLite writer lock allows, plain and transactional saves; one retry round"],
+               "two writers: the four operation interleavings, plain and transactional saves; one retry round; statement level: writer B's whole save before writer A's k-th statement, k in [1,14] symbolic, with and without expected_phase"],
     "stubs": ["SymDB instead of SQLite (validated differentially on every run)", "ids: ULID() replaced by a counter"],
     "assumptions": ["a second writer cannot start writing before the first commits or rolls back (SQLite single-writer rule)"],
 }
